@@ -1,3 +1,4 @@
 import Dashu.Props.C13Reducer
 open Dashu.Props.C13Reducer
 #print axioms reducer_ubig_link
+#print axioms reducer_residue_link
